@@ -152,9 +152,9 @@ def two_workflows_values(kind, first, slices):
     LAST_DETAIL = {"kind": kind, "sequential": {k: v[:2] for k, v in ref.items()}, "interleaved": {k: v[:2] for k, v in got.items()}, "errors": errs, "schedule": res["schedule"], "why": why}
     return why is None
 
-def concurrent_values___KIND__(first: int, k1: int, k2: int) -> bool:
+def concurrent_values___KIND_____VLO__(first: int, k1: int, k2: int) -> bool:
     """
-    pre: 0 <= first <= 0 and 0 <= k1 <= VKMAX and 0 <= k2 <= 28
+    pre: 0 <= first <= 0 and __VLO__ <= k1 <= __VHI__ and 0 <= k2 <= 28
     post: _
     """
     kk2 = 3 * k2        # the second workflow's slice in units of 3 steps (the first workflow's preemption point is exact)
@@ -212,10 +212,19 @@ def run(ctx: Ctx) -> None:
     head, f = SRC.split("def values_run(kind, first, slices):")
     f = "def values_run(kind, first, slices):" + f
     src = head
+    vf_head, vf = f.split("def concurrent_values___KIND_____VLO__")
+    vf, cf = vf.split("def concurrent___KIND__")
+    vf = "def concurrent_values___KIND_____VLO__" + vf
+    cf = "def concurrent___KIND__" + cf
+    src += vf_head.replace("__KIND__", "0")
     for kind in (0, 1):
-        src += f.replace("__KIND__", str(kind))
+        for lo in range(0, 83, 21):
+            src += vf.replace("__KIND__", str(kind)).replace("__VLO__", str(lo)).replace("__VHI__", str(min(82, lo + 20)))
+            conds.append(Cond(f"concurrent_values_{kind}_{lo}", "confirm", 1500, keyfn=_key_from_replay))
+    for kind in (0, 1):
+        src += cf.replace("__KIND__", str(kind))
         conds.append(Cond(f"concurrent_{kind}", "confirm", 1500, keyfn=_key_from_replay))
-        conds.append(Cond(f"concurrent_values_{kind}", "confirm", 1500, keyfn=_key_from_replay))
+        pass
     src += EXTRA
     conds += [Cond("sched_twin", "refute", 60), Cond("canary_shared_record_key", "refute", 300)]
     ctx.ch_batch("c18sched", src.replace("VKMAX", "82").replace("KMAX", str(kmax)), conds)
